@@ -50,6 +50,13 @@ CHECKS = {
         'is exact (|z|<2^63, reinterpretable uint64, <2^53) and otherwise Python integers are used; C19_store_python_int: a Python integer of ANY size stored into ANY format with n_frac>=0 is OVERFLOW(v*2^n_frac) with exact flags '
         '(model of the _use_pyint decision of set_val). Tie: Python integers up to 2^1000 by four store routes; operand words 2..70 with results up to 141 bits, extremes / near extremes / random, 3 call routes.',
    design='7/C19', technique='Coq proof of guard soundness at every width + differential correspondence'),
+
+ 'C08': dict(
+   text='Proof: C08_imposed_repr - for all operand formats of the domain (n_word<=12, 0<=n_frac<=n_word), every imposed format up to 26 bits (C08_sizing_policies_covered: every same/largest/smallest/optimal format is one), all 10 governing '
+        'mode pairs and arrays of any length, the value (repr) method - also used by every out_like route - returns Spec.quantize of the exact result with its flags; C08_raw_optimal: the integer-code (raw) method with optimal sizing at every width; '
+        'C08_unary: - + abs exact whenever representable. The raw method INTO a narrower imposed format (negative rescale through a float factor, then one rounding) is not yet a theorem: it is modelled (Arith.raw_elem/mscale) and rests on the '
+        'correspondence run, which compares implementation, Spec and model for both methods, every sizing policy, out / out_like targets, constants on either side with op_input_size same/best, governing modes and identity z is out.',
+   design='7/C08', technique='Coq proof (repr method, sizing coverage, unary) + differential correspondence for raw-into-imposed'),
 }
 NA_REASON = 'check not built yet (work in progress; see DESIGN.md section 10 order of work)'
 def main():
